@@ -269,7 +269,7 @@ def _prior_from_file(ch, out, models, spec, path, comps, o, twin2, history):
 
 def _case_body(ch, out, models, spec, path, o, variant, twin, twin2=None):
     history = ["blind"]
-    out.sample = {"image": {k: spec[k] for k in ("layout", "rows", "cols", "crval", "proj", "cd_matrix", "beam_ratio", "bpa", "float64", "cube", "beam_param", "aux_files", "psf_map", "pix_arcsec", "beam_pix", "noise")},
+    out.sample = {"image": {k: spec[k] for k in ("layout", "rows", "cols", "crval", "proj", "cd_matrix", "beam_ratio", "bpa", "float64", "cube", "beam_param", "aux_files", "psf_map", "offaxis", "pix_arcsec", "beam_pix", "noise")},
                   "nsources_injected": len(spec["sources"]), "options": dict(o), "history": history}
 
     counter = fm.CallCounter()
